@@ -287,6 +287,8 @@ func (g *rgen) callCase() (string, obj) {
 			args = append(args, g.callback(false))
 			if g.chance(0.3) {
 				args = append(args, ref(6))
+			} else if g.chance(0.25) { // a primitive thisArg: the callback sees the global object or a fresh wrapper
+				args = append(args, g.pick(vNum(5), vStr("t"), vBool(false), vNull, vUndef))
 			}
 		} else if g.chance(0.5) {
 			args = append(args, g.pick(vUndef, vNum(1), ref(6)))
@@ -315,6 +317,32 @@ func (g *rgen) callCase() (string, obj) {
 	}
 	if args == nil {
 		args = []any{}
+	}
+	// a primitive receiver (generic call, O = ToObject(this) once) for the methods that only read it
+	switch m {
+	case "every", "some", "forEach", "map", "filter", "reduce", "reduceRight", "join", "slice", "indexOf", "lastIndexOf":
+		mutating := false
+		for _, a := range args {
+			if o, ok := a.(obj); ok && o["k"] == "mut" {
+				mutating = true // the scripted mutation addresses the receiver object
+			}
+		}
+		if !mutating && g.chance(0.12) {
+			var v obj
+			switch g.r.Intn(4) {
+			case 0:
+				v = vNum(float64(g.r.Intn(9)))
+			case 1:
+				v = vBool(g.chance(0.5))
+			default:
+				str := ""
+				for i, n := 0, g.r.Intn(5); i < n; i++ {
+					str += string("ab1 "[g.r.Intn(4)])
+				}
+				v = vStr(str)
+			}
+			recv = obj{"cls": "prim", "v": v, "inh": []any{}}
+		}
 	}
 	return kind, obj{"fam": "judge", "m": m, "args": args, "objs": append([]any{recv}, aux...)}
 }
